@@ -461,6 +461,13 @@ def read_union(
     else:
         result = read_data(decoder, idx_schema, named_schemas, None, options)
 
+    if isinstance(idx_reader_schema, str):
+        # The reader's branch may refer by name to the type the writer defines
+        # inline (and the other way round): report the definition's name
+        reader_named = named_schemas["reader"].get(idx_reader_schema)
+    else:
+        reader_named = idx_reader_schema
+
     return_record_name_override = options.get("return_record_name_override")
     return_record_name = options.get("return_record_name")
     return_named_type_override = options.get("return_named_type_override")
@@ -469,14 +476,14 @@ def read_union(
         return result
     elif return_named_type and extract_record_type(idx_schema) in NAMED_TYPES:
         schema_name = (
-            idx_reader_schema["name"] if idx_reader_schema else idx_schema["name"]
+            reader_named["name"] if reader_named else idx_schema["name"]
         )
         return (schema_name, result)
     elif return_named_type and extract_record_type(idx_schema) not in AVRO_TYPES:
         # idx_schema is a named type
         schema_name = (
-            named_schemas["reader"][idx_reader_schema]["name"]
-            if idx_reader_schema
+            reader_named["name"]
+            if reader_named
             else named_schemas["writer"][idx_schema]["name"]
         )
         return (schema_name, result)
@@ -484,14 +491,14 @@ def read_union(
         return result
     elif return_record_name and extract_record_type(idx_schema) in ("record", "error"):
         schema_name = (
-            idx_reader_schema["name"] if idx_reader_schema else idx_schema["name"]
+            reader_named["name"] if reader_named else idx_schema["name"]
         )
         return (schema_name, result)
     elif return_record_name and extract_record_type(idx_schema) not in AVRO_TYPES:
         # idx_schema is a named type
         schema_name = (
-            named_schemas["reader"][idx_reader_schema]["name"]
-            if idx_reader_schema
+            reader_named["name"]
+            if reader_named
             else named_schemas["writer"][idx_schema]["name"]
         )
         return (schema_name, result)
